@@ -10,10 +10,20 @@ RULE = ("exhaustive pairs/triples of strings over {a,A,b,B,1,_,.,/} up to length
 PROVED = ("strict weak ordering (irreflexive, transitive, incomparability transitive and = IsEqual) for all strings; "
           "uniqueness of the sorted arrangement on duplicate-free input for ANY sorted permutation (so std::sort's "
           "choice is irrelevant); completeness of adjacent-duplicate detection; PathsAreEqual is an equivalence "
-          "containing IsEqual; IsPowerOf2 exact on all v<2^32; Log2OfPowerOf2 exact on the 32 powers; translated "
+          "containing IsEqual; path laws on the path model, all strings, no length bound: PathsAreEqual(\"./\"+p, p) "
+          "for every p not starting with '/' and for no other p (iff; the empty path included); "
+          "HasRootComponent(p) is false iff p does not start with '/'; GetFilename(Append(d, n)) = n for every d "
+          "without root component and every non-empty '/'-free n; Append(GetDirectory p, GetFilename p) succeeds and "
+          "PathsAreEqual to p for every p without root component (trailing slash and empty path included); "
+          "ExtensionMatches(ChangeFileExtension(f, e), e') for EVERY path f (directories, roots, empty included), e = s or "
+          "'.'+s with s non-empty and free of '.' and '/', e' equal to e ignoring case; "
+          "IsPowerOf2 exact on all v<2^32; Log2OfPowerOf2 exact on the 32 powers; translated "
           "IsPowerOf2/Log2OfPowerOf2 equal the model")
-PARTIAL = ("leading './', join/split and extension-replacement laws are checked by direct oracles on the implementation "
-           "(exhaustive small scope) and by correspondence with the path model; their Lean proofs are listed in DESIGN as future work")
+PARTIAL = ("the path laws are theorems about the model of std::experimental::filesystem::path (trusted base, tied by "
+           "correspondence and the direct oracles); join and re-join laws are proved for paths without root component "
+           "only — the unrestricted statements are refuted in Lean (C19_filename_of_join_full_fails: Append(\"//\",\"b\") "
+           "has file name \"//b\"; C19_split_rejoin_full_fails: re-joining \"/\" is refused) and the library agrees; "
+           "the extension law needs e to be an extension in the library's sense (\"x.y\" is not: the new extension is \".y\")")
 TRUSTED = ["model of std::experimental::filesystem::path (Op2Model/Path.lean) — validated exhaustively over small strings",
            "glibc C-locale tolower/toupper table (Op2Model/Str.lean) — validated over all 256 bytes"]
 ASSUMPTIONS = ["std::sort returns a permutation of its input sorted w.r.t. the comparator (theorem covers every such result)"]
